@@ -218,7 +218,17 @@ impl Generated {
     }
     fn job(&self, t: usize, i: usize) -> Job {
         let mut r = Rng::new(mix(self.base, self.run as u64, t as u64 + 1, i as u64 + 1));
-        let (claims, repeated) = match r.below(4) {
+        let (claims, repeated) = match r.below(if i % 16 == 5 { 1 } else { 4 }) {
+            // now and then the repeated claims carry LARGE values (a portrait-sized string, a long array): freshness must
+            // not depend on the size of what is disclosed
+            0 if i % 16 == 5 => {
+                let mut c = self.common.clone();
+                if let Some(m) = c.as_object_mut() {
+                    m.insert("portrait".into(), json!("data:image/png;base64,".to_string() + &"QUJD".repeat(1500)));
+                    m.insert("history".into(), json!((0..40).map(|k| json!({"entry": k, "note": "x".repeat(120)})).collect::<Vec<_>>()));
+                }
+                (c, true)
+            }
             0 => (self.common.clone(), true),
             1 => (self.per_thread_claims[t].clone(), true),
             _ => (gen_claims(&mut r, &tree_cfg(), self.now), false),
